@@ -203,7 +203,12 @@ func (e *Exec) harnessIntrinsic(short string, args []Value) (Value, bool) {
 		}
 		return nil, true
 	case "vcfgMapOrderIn":
-		e.mapOrderFn[e.concStr(args[0])] = true
+		name := e.concStr(args[0])
+		if strings.HasPrefix(name, "-") { // "-fn": stop exploring the map orders of fn from here on
+			delete(e.mapOrderFn, name[1:])
+		} else {
+			e.mapOrderFn[name] = true
+		}
 		return nil, true
 	case "vcfgAppendCapIn":
 		e.appendCapFn[e.concStr(args[0])] = true
